@@ -6,6 +6,7 @@ import (
 	"errors"
 	"fmt"
 	"io"
+	"os"
 	"strings"
 
 	"github.com/cloudwego/eino/components/tool"
@@ -280,7 +281,14 @@ func (sp *spec) build() (func(), func(x *vsched.Exec) (string, error)) {
 		}
 		ob.returned = true
 	}
-	check := func(x *vsched.Exec) (string, error) { return sp.judge(w, ob, x) }
+	check := func(x *vsched.Exec) (string, error) {
+		o, err := sp.judge(w, ob, x)
+		if err == nil && ctx != nil {
+			// evidence that completion orders really differ: executions per (number of calls, completion order)
+			ctx.Count(fmt.Sprintf("executions/%d-calls/completion-order-%s", len(sp.calls), renderOrder(w.finished)), 1)
+		}
+		return o, err
+	}
 	return main, check
 }
 
@@ -337,6 +345,8 @@ func renderOrder(o []int) string {
 	}
 	return strings.Join(p, "")
 }
+
+var ctx *harness.Ctx // for counters only
 
 type violation struct {
 	sig string
@@ -553,64 +563,203 @@ func renderMap(keys []string, m map[string]string) string {
 	return strings.Join(p, ",")
 }
 
+// features of a scenario the menus are written in
+type feat struct {
+	n        int
+	used     []string // registered tools that are called
+	actors   []string // bodies that run: called tools and, if it is configured and an unknown name is called, the handler
+	hasU     bool
+	rejected bool // unknown name without handler: rejected before any tool runs
+	nFail    int  // actors failing in any way
+	nMid     int  // ... of which mid-stream
+	merge    bool // a Stream call that gets as far as merging >= 2 per-call streams (forwarder goroutines, select)
+	twoChunk bool // some called tool streams two chunks in this mode (merge cost grows with the chunk count)
+	allYield bool
+	noYield  bool
+	kindPat  string // "inv", "s2", ... if uniform, else "t1kind,t2kind"
+	uniform  bool
+}
+
+func features(sp *spec) feat {
+	ft := feat{n: len(sp.calls)}
+	for _, tn := range toolNames {
+		for _, cl := range sp.calls {
+			if cl == tn {
+				ft.used = append(ft.used, tn)
+				break
+			}
+		}
+	}
+	for _, cl := range sp.calls {
+		if cl == unknownName {
+			ft.hasU = true
+		}
+	}
+	ft.actors = append(ft.actors, ft.used...)
+	if ft.hasU && sp.handler {
+		ft.actors = append(ft.actors, unknownName)
+	}
+	ft.rejected = ft.hasU && !sp.handler
+	ft.allYield, ft.noYield = true, true
+	hard := 0
+	for _, a := range ft.actors {
+		switch sp.fail[a] {
+		case fErr, fPanic:
+			ft.nFail++
+			hard++
+		case fMid:
+			ft.nFail++
+			ft.nMid++
+		}
+		if sp.yield[a] > 0 {
+			ft.noYield = false
+		} else {
+			ft.allYield = false
+		}
+	}
+	ft.merge = sp.mode == "stream" && !ft.rejected && hard == 0 && ft.n >= 2
+	var ks []string
+	ft.uniform = true
+	for _, u := range ft.used {
+		ks = append(ks, sp.kind[u])
+		if sp.kind[u] != sp.kind[ft.used[0]] {
+			ft.uniform = false
+		}
+		if sp.mode == "stream" && (sp.kind[u] == kS2 || sp.kind[u] == kBoth) {
+			ft.twoChunk = true
+		}
+	}
+	switch {
+	case len(ks) == 0:
+		ft.kindPat = "-"
+	case ft.uniform:
+		ft.kindPat = ks[0]
+	default:
+		ft.kindPat = strings.Join(ks, ",")
+	}
+	return ft
+}
+
+func (ft feat) kindIn(pats ...string) bool {
+	if len(ft.used) == 0 {
+		return true
+	}
+	for _, p := range pats {
+		if ft.kindPat == p {
+			return true
+		}
+	}
+	return false
+}
+
+var mainKindPatterns = []string{kInv, kS2, kBoth, kS1, kInv + "," + kS2, kS1 + "," + kBoth}
+
+// pb2StreamLists are the three-call lists whose Stream merge is explored up to two preemptions in the quick tier.
+var pb2StreamLists = map[string]bool{"t1+t2+t1": true, "u+t1+t2": true, "t2+t2+t2": true}
+
+// menu decides whether the scenario belongs to the tier and with which preemption bounds.
+// The cost of a scenario is dominated by the merge of the per-call streams (one forwarder goroutine per call,
+// every arrival order of the chunks is an explored select choice): three merged streams are affordable only
+// at small bounds, everything else is cheap.
+func menu(sp *spec, quick bool) (bool, []int) {
+	ft := features(sp)
+	list := strings.Join(sp.calls, "+")
+	full := []int{0, 1, 2}
+	if !quick {
+		full = []int{0, 1, 2, 3, -1}
+	}
+	// a handler that is configured but never needed: only the plain success path
+	if sp.handler && !ft.hasU {
+		if ft.nFail > 0 || !ft.allYield || !ft.kindIn(kInv, kS2) || (quick && ft.n > 2) {
+			return false, nil
+		}
+	}
+	if ft.merge && ft.n == 3 {
+		if !ft.allYield || !ft.kindIn(mainKindPatterns...) {
+			return false, nil
+		}
+		if quick {
+			switch {
+			case !ft.twoChunk && ft.nMid == 0 && ft.kindIn(kInv) && sp.host == "direct" && pb2StreamLists[list]:
+				return true, []int{0, 1, 2}
+			case !ft.twoChunk && ft.nMid == 0 && ft.kindIn(kInv, kS1):
+				return true, []int{0, 1}
+			case ft.kindIn(kS2) && ft.nMid <= 1 && sp.host == "direct":
+				return true, []int{0}
+			case ft.kindIn(kS2) && ft.nMid == 0 && pb2StreamLists[list]:
+				return true, []int{0}
+			}
+			return false, nil
+		}
+		if ft.nMid > 1 {
+			return false, nil
+		}
+		if ft.twoChunk || ft.nMid > 0 {
+			return true, []int{0, 1}
+		}
+		return true, []int{0, 1, 2}
+	}
+	if !quick {
+		return true, full
+	}
+	// ---- quick tier, cheap scenarios (Invoke; Stream of <= 2 calls; Stream calls that fail before the merge)
+	if ft.rejected {
+		return ft.allYield && ft.kindIn(kInv, kS2), full
+	}
+	switch {
+	case ft.nFail == 0 && ft.allYield && ft.kindIn(mainKindPatterns...):
+		return true, full // every call list, success path
+	case ft.nFail == 0 && ft.allYield && (ft.n <= 2 || sp.mode == "invoke"):
+		return true, full // every kind assignment
+	case ft.nFail > 0 && ft.allYield && (ft.kindIn(kInv, kS2) || (ft.kindIn(kBoth) && ft.n <= 2)):
+		return true, full // every subset of failing tools
+	case sp.mode == "invoke" && ft.kindIn(kInv) && ft.nFail <= 1:
+		return true, full // every yield assignment
+	case sp.mode == "stream" && ft.n <= 2 && ft.kindIn(kInv, kS2) && ft.nFail == 0:
+		return true, full // every yield assignment, merged streams
+	}
+	return false, nil
+}
+
 func main() {
 	c := harness.Init("C17")
+	ctx = c
 	quick := c.Quick()
-	c.Res.Rule = "scenario = call list (length 1-3 over {t1,t2,unknown name}, repeats with different arguments, unique ids) x kind of every called tool (invokable-only, streamable-only 1 or 2 chunks, both) x failure of every called tool and of the handler (none, error, panic, mid-stream error) x UnknownToolsHandler present/absent x Invoke/Stream x bare ToolsNode / single node of a compiled graph x yields in tool bodies; every interleaving of the calling goroutine, the tool goroutines and (Stream) the merge forwarders within the preemption bound, both map orders for the in-graph variants; distinct/non-trivial = distinct scheduling signatures of scenarios with >= 2 of them; the outcome string carries the completion order of the tool bodies"
+	c.Res.Rule = "scenario = call list (length 1-3 over {t1,t2,unknown name}, repeats with different arguments, unique ids) x kind of every called tool (invokable-only, streamable-only 1 or 2 chunks, both) x failure of every called tool and of the handler (none, error, panic, mid-stream error) x UnknownToolsHandler present/absent x Invoke/Stream x bare ToolsNode / single node of a compiled graph x yields in tool bodies (0/1 per tool); every interleaving of the calling goroutine, the tool goroutines and (Stream) the merge forwarders within the preemption bound, both map orders for the in-graph variants; distinct/non-trivial = distinct scheduling signatures of scenarios with >= 2 of them; the outcome string carries the completion order of the tool bodies"
 	c.Res.Assumptions = []string{
 		"sequential consistency at synchronisation granularity; tool bodies are atomic between their explicit yields, framework code between two synchronisation operations is atomic",
 		"streamable tools answer from arrays / a pre-filled buffered pipe (no producer goroutine of their own), so a goroutine left blocked can only be the framework's",
 		"a bare ToolsNode has no enclosing run: a panic of the inline (first) tool reaching its direct caller as a panic is accepted there; inside a graph it must be a run error",
 		"when several tools fail, which failure is reported is not specified: any of them is accepted",
+		"happens-before state caching is used for Stream scenarios only (stream code is channel-synchronised; task slots are disjoint and read after WaitGroup.Wait; the harness recordings are ordered with vsched.Note); Invoke scenarios are explored without it",
 	}
 	c.Res.Explanation = "stateless exhaustive exploration of real ToolsNode.Invoke/Stream calls (bare and inside a compiled graph) with recording tools; oracle per execution = the statement: N tool messages, the i-th with the i-th call id and f(name_i,args_i); the streamed chunks concatenate position-wise (concatMessageArray semantics) to the same list; a failing tool fails the call with an error that errors.Is its error; a panicking tool gives a run error, no crashed goroutine, no hang, nothing left blocked; an unknown name is an error, or with a handler the handler's answer at that index"
-
-	bounds := []int{0, 1, 2}
-	if !quick {
-		bounds = []int{0, 1, 2, 3, -1}
+	if quick {
+		c.Res.Notes = append(c.Res.Notes, "quick bounds: {0,1,2} for every Invoke scenario, every Stream scenario with <= 2 calls and every Stream scenario that fails before the merge; Stream of 3 calls that reaches the merge: single-chunk tools {0,1} (three lists on the bare node {0,1,2}), two-chunk tools {0}")
+	} else {
+		c.Res.Notes = append(c.Res.Notes, "thorough bounds: {0,1,2,3,unbounded} for every Invoke scenario, every Stream scenario with <= 2 calls and every Stream scenario that fails before the merge; Stream of 3 calls that reaches the merge: single-chunk tools {0,1,2}, two-chunk tools or mid-stream error {0,1}")
 	}
+
+	all := append(append([]string(nil), toolNames...), unknownName)
 	for _, calls := range callLists() {
-		hasU := false
-		var used []string // registered tools that are called
-		for _, tn := range toolNames {
-			for _, cl := range calls {
-				if cl == tn {
-					used = append(used, tn)
-					break
-				}
-			}
-		}
-		for _, cl := range calls {
-			if cl == unknownName {
-				hasU = true
-			}
-		}
+		base := features(&spec{calls: calls})
 		for _, handler := range []bool{false, true} {
-			actors := append([]string(nil), used...) // bodies that run: called tools and the handler
-			if hasU && handler {
+			actors := append([]string(nil), base.used...)
+			if base.hasU && handler {
 				actors = append(actors, unknownName)
 			}
-			kinds := assignments(used, func(string) []string { return []string{kInv, kS2, kBoth, kS1} })
+			kinds := assignments(base.used, func(string) []string { return []string{kInv, kS2, kBoth, kS1} })
 			for _, kind := range kinds {
 				fails := assignments(actors, func(k string) []string {
+					if base.hasU && !handler {
+						return []string{fOK} // rejected before any tool runs: failures are irrelevant
+					}
 					if k != unknownName && kind[k] == kS2 {
 						return []string{fOK, fErr, fPanic, fMid}
 					}
 					return []string{fOK, fErr, fPanic}
 				})
 				for _, fail := range fails {
-					if hasU && !handler {
-						// the call is rejected before any tool runs: failures are irrelevant
-						allOK := true
-						for _, v := range fail {
-							if v != fOK {
-								allOK = false
-							}
-						}
-						if !allOK {
-							continue
-						}
-					}
 					yields := assignments(actors, func(string) []string { return []string{"1", "0"} })
 					for _, ym := range yields {
 						for _, mode := range []string{"invoke", "stream"} {
@@ -621,22 +770,19 @@ func main() {
 										sp.yield[k] = 1
 									}
 								}
-								if quick && !inQuick(sp, used, actors, hasU) {
-									continue
-								}
-								if !quick && !inThorough(sp, used, actors, hasU) {
+								ok, bounds := menu(sp, quick)
+								if !ok {
 									continue
 								}
 								h := "nohandler"
 								if handler {
 									h = "handler"
 								}
-								all := append(append([]string(nil), toolNames...), unknownName)
-								sp.name = fmt.Sprintf("%s/%s/%s/%s/kind[%s]/fail[%s]/yield[%s]", strings.Join(calls, "+"), host, mode, h,
+								sp.name = fmt.Sprintf("calls[%s]/%s/%s/%s/kind[%s]/fail[%s]/yield[%s]", strings.Join(calls, "+"), host, mode, h,
 									renderMap(all, kind), renderMap(all, fail), renderMap(all, ym))
 								sc := harness.Scenario{Name: sp.name, Bounds: bounds, MaxExecs: 3_000_000, New: sp.build,
 									OneOrder: host == "direct", // the bare ToolsNode iterates no map; graph runs do
-									HBCache:  false,
+									HBCache:  mode == "stream" && os.Getenv("VERIF_C17_NOHB") == "",
 									Signature: func(err error) string {
 										var v *violation
 										if errors.As(err, &v) {
@@ -651,6 +797,7 @@ func main() {
 								if !c.Mine(sp.name) {
 									continue
 								}
+								c.Count("scenarios_"+mode+"_"+host, 1)
 								c.Sample(map[string]any{"scenario": sp.name, "bounds": bounds})
 								c.Add(sc)
 							}
@@ -663,7 +810,3 @@ func main() {
 	c.ExploreAll()
 	c.Finish()
 }
-
-func inThorough(sp *spec, used, actors []string, hasU bool) bool { return true }
-
-func inQuick(sp *spec, used, actors []string, hasU bool) bool { return true }
